@@ -464,8 +464,8 @@ impl<'a> Interp<'a> {
                     self.stats.skipped += 1;
                     return Ok(());
                 }
-                self.views[s].unscheduled = false;
                 if self.sim.ready(s) {
+                    self.views[s].unscheduled = false;
                     self.mirror.push_back(Ev::ReadyOf(s));
                 }
                 Ok(())
@@ -803,9 +803,11 @@ impl<'a> Interp<'a> {
                 self.ack(serial, usize::MAX >> 1);
             }
             if (spec.auto_ready || force_ack) && self.views[serial].unscheduled {
-                self.views[serial].unscheduled = false;
                 self.stats.saw_busy = true;
+                // the router's event channel is bounded: a real link awaits capacity, here
+                // the Ready stays due until it could be sent
                 if self.sim.ready(serial) {
+                    self.views[serial].unscheduled = false;
                     self.mirror.push_back(Ev::ReadyOf(serial));
                 }
             }
@@ -1204,8 +1206,8 @@ impl<'a> Interp<'a> {
                         progress = true;
                     }
                     if self.views[s].unscheduled {
-                        self.views[s].unscheduled = false;
                         if self.sim.ready(s) {
+                            self.views[s].unscheduled = false;
                             self.mirror.push_back(Ev::ReadyOf(s));
                         }
                         progress = true;
